@@ -103,7 +103,8 @@ Record edit_obs := mkEdit {
 
 (* one direct call of an OptionRecord edit method on a real parsed record *)
 Record opt_obs := mkOpt {
-  oo_kind : nat;                   (* 1 set_option, 2 remove_option, 3 append_option, 4 prepend_option, 5 replace_option *)
+  oo_kind : nat;                   (* 1 set_option, 2 remove_option, 3 append_option, 4 prepend_option, 5 replace_option,
+                                      6 + n = remove_nth_option(key, n) *)
   oo_before : list node;           (* children of record.root *)
   oo_key : text;                   (* key / old *)
   oo_val : option text;            (* value (None = option without value) *)
@@ -298,7 +299,8 @@ Definition check_opts (c : case) : list nat :=
       | 2 => remove_option r_option r_KEY r_WS ch (oo_key o)
       | 3 => append_option r_option r_KEY r_VALUE r_EQUAL r_WS r_NEWLINE ch (oo_key o) (oo_val o)
       | 4 => Some (prepend_option r_option r_KEY r_VALUE r_EQUAL r_WS ch (oo_key o) (oo_val o))
-      | _ => replace_option r_option r_KEY r_VALUE ch (oo_key o) (oo_new o)
+      | 5 => replace_option r_option r_KEY r_VALUE ch (oo_key o) (oo_new o)
+      | k => remove_nth_option r_option r_KEY r_WS ch (oo_key o) (k - 6)
       end in
     tag (onodes_eqb model (oo_after o)) 29 ++
     (* the call raised an internal error *)
